@@ -9,6 +9,8 @@ Proved for all grids, samplings, frequencies, stencil half-widths and coefficien
 * every row of the coefficient table `fd_coefficients` (accuracies 2 … 18, regenerated, read as the exact decimals
   written) has `p + 1` symmetric entries and satisfies the order conditions — moments `0, 0, 2, 0, …, 0` up to order
   `p + 1` — within `10⁻¹⁵` of its absolute moment (`fd_table_order_conditions`, by kernel evaluation of the whole table);
+  any stencil with these moments differentiates polynomials of degree `≤ p + 1` exactly, and moment defects enter
+  linearly (`polynomial_exactness`, `polynomial_exactness_with_defect`);
 * the x and y second differences are scaled by `1/dx²` and `1/dy²` (`axis_prefactor`; the pinned tree used `1/(dx·dy)`
   for both, repaired by /repo 705a09f6); the accuracy-2 symbol is `−(2 sin(θ/2)/d)²` (`second_order_symbol`);
 * the loop of `_multislice_exponential_series` computes the truncated exponential series (`exp_series_partial_sum`), the
@@ -22,6 +24,8 @@ import AbtemVerif.Gen.FiniteDiffR
 import Mathlib.Analysis.SpecialFunctions.Complex.Circle
 import Mathlib.Analysis.SpecialFunctions.Exponential
 import Mathlib.Analysis.SpecialFunctions.Trigonometric.Basic
+import Mathlib.Data.Nat.Choose.Sum
+import Mathlib.Data.Nat.Choose.Cast
 import Mathlib.Tactic.Ring
 import Mathlib.Tactic.Linarith
 import Mathlib.Tactic.FieldSimp
@@ -57,6 +61,49 @@ theorem fd_table_keys : fdCoefficients.map (·.1) = [2, 4, 6, 8, 10, 12, 14, 16,
 /-- Accuracy 2 is the classical `[1, −2, 1]`, exactly. -/
 theorem fd_second_order_row : fdCoefficients.lookup 2 = some [1, -2, 1] := by
   decide +kernel
+
+/-! ### what the order conditions give -/
+
+/-- `polynomial_exactness_with_defect`: what the order conditions mean.  For *any* stencil (offset set `s`, coefficients `c`)
+whose moments are `0, 0, 2, 0, …, 0` up to order `p + 1` with defects `e q` (the table's rounding, bounded in
+`fd_table_order_conditions`), the stencil applied to the monomial `(x + j)^q`, `q ≤ p + 1`, gives the exact second derivative
+`q (q − 1) x^{q−2}` plus the defects weighted by `C(q, m) x^m`. -/
+theorem polynomial_exactness_with_defect (s : Finset ℤ) (c : ℤ → ℝ) (p : ℕ) (e : ℕ → ℝ)
+    (hm : ∀ q ≤ p + 1, ∑ j ∈ s, c j * (j : ℝ) ^ q = (if q = 2 then 2 else 0) + e q) (q : ℕ) (hq : q ≤ p + 1) (x : ℝ) :
+    ∑ j ∈ s, c j * (x + j) ^ q
+      = q * (q - 1) * x ^ (q - 2) + ∑ m ∈ range (q + 1), x ^ m * (q.choose m : ℝ) * e (q - m) := by
+  have h1 : ∀ j ∈ s, c j * (x + j) ^ q = ∑ m ∈ range (q + 1), x ^ m * (q.choose m : ℝ) * (c j * (j : ℝ) ^ (q - m)) := by
+    intro j _
+    rw [add_pow, Finset.mul_sum]
+    apply Finset.sum_congr rfl; intro m _; ring
+  rw [Finset.sum_congr rfl h1, Finset.sum_comm]
+  have h2 : ∀ m ∈ range (q + 1), ∑ j ∈ s, x ^ m * (q.choose m : ℝ) * (c j * (j : ℝ) ^ (q - m))
+      = x ^ m * (q.choose m : ℝ) * (if q - m = 2 then 2 else 0) + x ^ m * (q.choose m : ℝ) * e (q - m) := by
+    intro m _
+    rw [← Finset.mul_sum, hm (q - m) (by omega)]; ring
+  rw [Finset.sum_congr rfl h2, Finset.sum_add_distrib]
+  congr 1
+  by_cases h : 2 ≤ q
+  · rw [Finset.sum_eq_single_of_mem (q - 2) (by rw [mem_range]; omega)]
+    · have e' : q - (q - 2) = 2 := by omega
+      rw [if_pos e', Nat.choose_symm h, Nat.cast_choose_two]
+      ring
+    · intro m hm' hne
+      rw [mem_range] at hm'
+      rw [if_neg (by omega)]; ring
+  · have : ∀ m ∈ range (q + 1), x ^ m * (q.choose m : ℝ) * (if q - m = 2 then (2 : ℝ) else 0) = 0 := by
+      intro m _; rw [if_neg (by omega)]; ring
+    rw [Finset.sum_eq_zero this]
+    have hq' : q = 0 ∨ q = 1 := by omega
+    rcases hq' with rfl | rfl <;> simp
+
+/-- `coefficients_solve_order`: with exact moments the stencil differentiates every polynomial of degree `≤ p + 1` exactly —
+this is the sense in which a row of the table has accuracy `p`. -/
+theorem polynomial_exactness (s : Finset ℤ) (c : ℤ → ℝ) (p : ℕ)
+    (hm : ∀ q ≤ p + 1, ∑ j ∈ s, c j * (j : ℝ) ^ q = if q = 2 then 2 else 0) (q : ℕ) (hq : q ≤ p + 1) (x : ℝ) :
+    ∑ j ∈ s, c j * (x + j) ^ q = q * (q - 1) * x ^ (q - 2) := by
+  have := polynomial_exactness_with_defect s c p (fun _ => 0) (by intro q hq; rw [hm q hq]; ring) q hq x
+  simpa using this
 
 /-! ### the stencil on plane waves -/
 
